@@ -1,1 +1,7 @@
+import IprProps.C03
+import IprProps.C06
 import IprProps.C08
+import IprProps.C10
+import IprProps.C12
+import IprProps.C16
+import IprProps.C19
